@@ -1,4 +1,4 @@
-import Utcp.Lemmas.OutId
+import Utcp.Lemmas.EmitCount
 /-!
 # C02: the id a send returns is the id of the packet that carries the bunch
 
@@ -11,6 +11,7 @@ only 14 bits travel.  This file ties the three together on the sending side, ove
 * `header_carries_id` — hence the header written when a packet is started, and the header it is refreshed with at the flush, carry that id modulo 2^14.
 * `send_returns_pending_id` — an accepted send returns the id of the packet into whose buffer the bunch was just written, and `flush_consumes_id`: emitting that
   packet consumes exactly that id.
+* `datagrams_count` — over every history the number of datagrams handed to the outgoing callback equals the number of packet ids consumed (`Lemmas/EmitCount.lean`).
 -/
 namespace Utcp.Props.C02Hist
 open Utcp Utcp.Gen Utcp.Props
@@ -93,6 +94,32 @@ theorem send_returns_pending_id (e : Env) (c : Conn) (b : Bunch) (h0 : Bits) (x 
 /-- emitting the open packet consumes exactly its id -/
 theorem flush_consumes_id (e : Env) (c : Conn) : (c.flushNow e).outPacketId = c.outPacketId + 1 ∧ ∃ d, (c.flushNow e).log = .out d :: c.log :=
   ⟨rfl, _, rfl⟩
+
+theorem apply_ecnt (e : Env) (c : Conn) (op : C18.Op) : ECnt c (C18.apply e c op) := by
+  cases op with
+  | send b => exact sendBunch_ecnt e c b
+  | flush => exact flush_ecnt e c
+  | recv bits => exact receivedPacket_ecnt e c bits
+  | update => exact update_ecnt e c
+
+/-- **every history**: datagrams emitted = packet ids consumed -/
+theorem run_ecnt (ops : List (Env × C18.Op)) : ∀ c : Conn, ECnt c (C18.run c ops) := by
+  induction ops with
+  | nil => intro c; exact ECnt.refl c
+  | cons p rest ih => intro c; exact (apply_ecnt p.1 c p.2).trans (ih _)
+
+/-- **one id per datagram**: after any history of a connection started by `utcp_sequence_init i o`, the number of datagrams it has handed to the outgoing
+callback is exactly the number of packet ids it has consumed (`OutPacketId − o`) — whether they left through a flush, through a send that spilled into the next
+packet or through a retransmission triggered while a packet was being received.  With `run_outinv` / `header_carries_id`: the k-th datagram carries the wire
+sequence `(o + k) mod 2^14`, and by `Props/C02_Order.lean` the k-th status is the verdict for id `o + k` -/
+theorem datagrams_count (ops : List (Env × C18.Op)) (i o : Int) :
+    ((outs (C18.run (({} : Conn).seqInit i o) ops).log : Nat) : Int) = (C18.run (({} : Conn).seqInit i o) ops).outPacketId - o := by
+  have h := run_ecnt ops (({} : Conn).seqInit i o)
+  unfold ECnt at h
+  have h0 : outs (({} : Conn).seqInit i o).log = 0 := rfl
+  have h1 : (({} : Conn).seqInit i o).outPacketId = o := rfl
+  rw [h0, h1] at h
+  omega
 
 /-! non-vacuity: a fresh connection whose initial outgoing sequence is beyond the 14-bit range -/
 example : OutInv (({} : Conn).seqInit 100 70000) := seqInit_outinv _ _ _
